@@ -260,6 +260,24 @@ def r3(ctx: Ctx) -> None:
         ctx.check(not bad, init, init.node, f"{c}.__init__ stores every parameter under its own name", ", ".join(f"self.{x}={x}" for x in params), ", ".join(bad) or "agrees")
 
 
+@rule("C10.R8", "a cancel record carries the time at which the cancel was accepted: the book stamps every cancel it accepts, whatever the cancel object carried before", "T4 all paths + T10", floor=1)
+def r8(ctx: Ctx) -> None:
+    f = ctx.func("OrderBook.cancel")
+    n = 0
+    for p in normal_paths(ctx.paths(f.qualname)):
+        n += 1
+        st = [e for e in stores(p, "placed_at") if key(strip_ver(e.base)) == "cancel"]
+        ok = len(st) == 1 and key(strip_ver(st[0].value)) == "self.time"
+        ctx.check(ok, f, st[0].node if st else f.node, "every accepted cancel is stamped with the book's current time", "cancel.placed_at = self.time on every normal path", (f"{len(st)} store(s): " + "; ".join(short(e.value) for e in st)) if st else "not stamped on [" + p.describe()[:100] + "]")
+    ctx.require(n >= 1, "OrderBook.cancel: no normal path")
+    g = ctx.func("Market._cancel_order")
+    for p in normal_paths(ctx.paths(g.qualname)):
+        made = [e for e in calls(p) if e.site.how == "ctor" and e.name == "CancelLog"]
+        can = [e for e in calls(p) if calls_target(e, "OrderBook.cancel")]
+        if made and can:
+            ctx.check(p.events.index(can[0]) < p.events.index(made[0]), g, made[0].node, "the record is built after the book stamped the cancel", "order_book.cancel(cancel) < CancelLog(...)", "record built first")
+
+
 @rule("C10.R4", "the logger keeps records in arrival order: write appends, bulk write extends, processing walks the list front to back and then empties it", "T5 order preservation", floor=4)
 def r4(ctx: Ctx) -> None:
     def only(q: str, check) -> None:
